@@ -30,7 +30,8 @@ fn gen_host(g: &mut G) -> String {
 fn gen_entry(g: &mut G, host: &str, other: &str) -> String {
     let h = host.to_ascii_lowercase();
     match g.below(10) {
-        0 => String::new(),
+        // nothing at all - or nothing but dots (an entry that names no domain bypasses nothing)
+        0 => ["", "", ".", ".."][h.len() % 4].to_string(),
         1 => h.clone(),
         2 => h.to_ascii_uppercase(),
         // parent domain
@@ -302,8 +303,18 @@ pub fn scenario(g: &mut G, ctx: &RunCtx) -> RunReport {
         let np_lower = gen_np(g);
         let np_upper = gen_np(g);
         let sim = Sim::new(ctx.sim_config());
-        for (k, v) in &vals {
+        for (i, (k, v)) in vals.iter().enumerate() {
             if let Some(t) = v.text() {
+                // (no draw) scheme names are case-insensitive: `HTTP://proxy:3128` is as valid as `http://...`
+                let t = if v.valid().is_some() && (url_s.len() + i) % 3 == 0 {
+                    g.probe("proxy-variable-with-upper-case-scheme");
+                    match t.split_once("://") {
+                        Some((sch, rest)) => format!("{}://{}", if i % 2 == 0 { sch.to_ascii_uppercase() } else { format!("{}{}", sch[..1].to_ascii_uppercase(), &sch[1..]) }, rest),
+                        None => t,
+                    }
+                } else {
+                    t
+                };
                 sim.set_env(k, &t);
             }
         }
